@@ -114,7 +114,7 @@ func pair(via string, rbuf, peerSend uint32) (*uacp.Conn, *net.TCPConn, error) {
 	if peerSend == 0 {
 		peerSend = 65535
 	}
-	ctx, cancel := context.WithTimeout(context.Background(), 5*time.Second)
+	ctx, cancel := context.WithTimeout(context.Background(), dl(5*time.Second))
 	defer cancel()
 	switch via {
 	case "newconn":
@@ -158,7 +158,7 @@ func pair(via string, rbuf, peerSend uint32) (*uacp.Conn, *net.TCPConn, error) {
 			return nil, nil, err
 		}
 		ack := make([]byte, 28)
-		w.SetReadDeadline(time.Now().Add(5 * time.Second))
+		w.SetReadDeadline(time.Now().Add(dl(5 * time.Second)))
 		if _, err := io.ReadFull(w, ack); err != nil {
 			return nil, nil, fmt.Errorf("reading ACK: %v", err)
 		}
@@ -185,7 +185,7 @@ func pair(via string, rbuf, peerSend uint32) (*uacp.Conn, *net.TCPConn, error) {
 				ch <- acc{nil, err}
 				return
 			}
-			w.SetReadDeadline(time.Now().Add(5 * time.Second))
+			w.SetReadDeadline(time.Now().Add(dl(5 * time.Second)))
 			hdr := make([]byte, 8)
 			if _, err := io.ReadFull(w, hdr); err != nil {
 				ch <- acc{nil, err}
@@ -257,7 +257,7 @@ func runC05(cs *c05case) {
 		w.CloseWrite()
 	}()
 	for i := 0; i < cs.Calls; i++ {
-		c.SetReadDeadline(time.Now().Add(5 * time.Second))
+		c.SetReadDeadline(time.Now().Add(dl(5 * time.Second)))
 		r := receiveOnce(c)
 		cs.Results = append(cs.Results, r)
 		if !continues(r) {
